@@ -3,6 +3,7 @@ package gripql
 import (
 	"errors"
 	"fmt"
+	"unicode/utf8"
 
 	//"sort"
 	"strings"
@@ -57,6 +58,12 @@ func (vertex *Vertex) Validate() error {
 	}
 	if vertex.Label == "" {
 		return errors.New("'label' cannot be blank")
+	}
+	if err := validateStorable(vertex.Gid); err != nil {
+		return fmt.Errorf("'gid' %v", err)
+	}
+	if err := validateStorable(vertex.Label); err != nil {
+		return fmt.Errorf("'label' %v", err)
 	}
 	for k := range vertex.GetDataMap() {
 		err := ValidateFieldName(k)
@@ -121,6 +128,11 @@ func (edge *Edge) Validate() error {
 	if edge.To == "" {
 		return errors.New("'to' cannot be blank")
 	}
+	for name, val := range map[string]string{"gid": edge.Gid, "label": edge.Label, "from": edge.From, "to": edge.To} {
+		if err := validateStorable(val); err != nil {
+			return fmt.Errorf("'%s' %v", name, err)
+		}
+	}
 	for k := range edge.GetDataMap() {
 		err := ValidateFieldName(k)
 		if err != nil {
@@ -157,11 +169,27 @@ func ValidateFieldName(k string) error {
 }
 
 func validate(k string) error {
+	if err := validateStorable(k); err != nil {
+		return err
+	}
 	if strings.ContainsAny(k, `!@#$%^&*()+={}[] :;"',.<>?/\|~`) {
 		return errors.New(`cannot contain: !@#$%^&*()+={}[] :;"',.<>?/\|~`)
 	}
 	if strings.HasPrefix(k, "_") || strings.HasPrefix(k, "-") {
 		return errors.New(`cannot start with _-`)
+	}
+	return nil
+}
+
+// validateStorable rejects strings the storage layers cannot represent
+// faithfully: the key/value drivers join identifiers with a 0x00 separator and
+// split on it again, and the wire format requires valid UTF-8.
+func validateStorable(k string) error {
+	if strings.ContainsRune(k, 0) {
+		return errors.New(`cannot contain the NUL character`)
+	}
+	if !utf8.ValidString(k) {
+		return errors.New(`must be valid UTF-8`)
 	}
 	return nil
 }
